@@ -17,6 +17,9 @@
 #include <algorithm>
 #include <chrono>
 #include <cmath>
+#ifdef BLOCH_VERIF
+#include <cstdlib>
+#endif
 #include <functional>
 #include <iomanip>
 #include <limits>
@@ -43,6 +46,31 @@ namespace bloch::runtime {
     }
 
     static constexpr bool kTraceConstructors = false;
+
+#ifdef BLOCH_VERIF
+    int RuntimeEvaluator::verifGcMode = 0;
+    std::vector<unsigned char> RuntimeEvaluator::verifGcMask;
+    unsigned long long RuntimeEvaluator::verifGcCollections = 0;
+    unsigned long long RuntimeEvaluator::verifGcSwept = 0;
+    static unsigned long long verifExecutionCounter = 0;
+
+    void RuntimeEvaluator::verifGcPoll() {
+        unsigned long long k = m_verifGcBoundary++;
+        switch (verifGcMode) {
+            case 2:
+                m_gcRequested = false;
+                break;
+            case 3:
+                m_gcRequested = true;
+                break;
+            case 4:
+                m_gcRequested = !verifGcMask.empty() && verifGcMask[k % verifGcMask.size()] != 0;
+                break;
+            default:
+                break;
+        }
+    }
+#endif
 
     static std::pair<RuntimeField*, RuntimeClass*> findStaticFieldWithOwner(
         RuntimeClass* cls, const std::string& name) {
@@ -515,6 +543,16 @@ namespace bloch::runtime {
                              "RuntimeEvaluator is single-use; construct a new instance per run");
         }
         m_executed = true;
+#ifdef BLOCH_VERIF
+        if (const char* shotSeed = std::getenv("BLOCH_VERIF_SHOT_SEED")) {
+            unsigned long long base = std::strtoull(shotSeed, nullptr, 10);
+            unsigned long long k = verifExecutionCounter++;
+            if (const char* idx0 = std::getenv("BLOCH_VERIF_SHOT_INDEX0"))
+                k += std::strtoull(idx0, nullptr, 10);
+            QasmSimulator::verifSeedRng(base * 0x9E3779B97F4A7C15ULL + k * 0xBF58476D1CE4E5B9ULL +
+                                        0x94D049BB133111EBULL);
+        }
+#endif
         m_functions.clear();
         m_env.clear();
         m_measurements.clear();
@@ -555,6 +593,9 @@ namespace bloch::runtime {
             if (m_gcThread.joinable())
                 m_gcThread.join();
         }
+#ifdef BLOCH_VERIF
+        verifGcPoll();
+#endif
         runCycleCollector();
         // Ensure warnings appear before any normal echo output
         if (m_warnOnExit)
@@ -1189,6 +1230,10 @@ namespace bloch::runtime {
     void RuntimeEvaluator::ensureGcThread() {
         if (m_gcThread.joinable())
             return;
+#ifdef BLOCH_VERIF
+        if (verifGcMode != 0)
+            return;
+#endif
         m_stopGc = false;
         m_gcRequested = false;
         m_gcThreadStarted = true;
@@ -1240,6 +1285,9 @@ namespace bloch::runtime {
         }
         if (objects.empty())
             return;
+#ifdef BLOCH_VERIF
+        ++verifGcCollections;
+#endif
         // Mark roots: environment variables and static storage
         for (const auto& scope : m_env) {
             for (const auto& kv : scope) markValue(kv.second.value);
@@ -1257,6 +1305,9 @@ namespace bloch::runtime {
                 unreachable.push_back(obj);
             }
         }
+#ifdef BLOCH_VERIF
+        verifGcSwept += unreachable.size();
+#endif
         for (auto& obj : unreachable) {
             for (auto& f : obj->fields) f = {};
         }
@@ -1602,6 +1653,9 @@ namespace bloch::runtime {
     }
 
     void RuntimeEvaluator::exec(Statement* s) {
+#ifdef BLOCH_VERIF
+        verifGcPoll();
+#endif
         if (m_gcRequested.load())
             runCycleCollector();
         if (!s)
